@@ -637,6 +637,16 @@ func genCase(t *rapid.T) Case {
 				a.IfFeatures = feats
 			}
 			m.Augments = append(m.Augments, a)
+			if a.When == "" && len(a.IfFeatures) == 0 && g.Chance(1, 2, "augofaug") {
+				// an augment of a node that the augment before it adds; written in either order (the order of the
+				// statements of a module means nothing)
+				oc := &sg.Node{Kind: "container", Name: x.id("oac"), Kids: []*sg.Node{{Kind: "leaf", Name: "k", Type: &sg.TypeSpec{Name: "string"}}}}
+				a.Kids = append(a.Kids, oc)
+				b := &sg.Augment{Target: a.Target + "/" + m.Prefix + ":" + oc.Name, Kids: []*sg.Node{x.leaf(x.id("oab"))}}
+				b.Kids[0].Mandatory = ""
+				m.Augments = append(m.Augments, b)
+				m.AugmentsReversed = g.Bool("augreversed")
+			}
 		}
 		if len(m.Imports) > 0 && g.Chance(2, 3, "xaug") {
 			imp := m.Imports[g.Pick(len(m.Imports), "ximp")]
